@@ -246,30 +246,37 @@ def main():
     if touched:
         notes.append("changed functions in anchor files: " + ", ".join(touched[:8]))
 
-    # 2. theorems
+    # 2. theorems: Props/Cxx.v plus any Props/Cxx_<part>.v (a property's theorems may be split by structure)
     proof_timeout = 3000 if tier == "thorough" else 1500
+    prop_files = ["Props/%s.v" % prop] + sorted(os.path.relpath(f, COQ) for f in glob.glob(os.path.join(COQ, "Props", prop + "_*.v")))
     if tier == "thorough":
         # clean rebuild of the cone
-        sh("rm -f Props/%s.vo" % prop, cwd=COQ)
-    rc, out = build_coq("Props/%s.vo" % prop, proof_timeout)
+        for pf in prop_files:
+            sh("rm -f %so" % pf, cwd=COQ)
+    rc, out = build_coq(" ".join(pf + "o" for pf in prop_files), proof_timeout)
     proof_ok = rc == 0
     n_theorems, closed, axioms = 0, 0, []
-    props_src = open(os.path.join(COQ, "Props", prop + ".v")).read()
-    theorem_names = re.findall(r"^\s*Theorem\s+([\w']+)", strip_coq_comments(props_src), re.M)
+    theorem_names, n_pa = [], 0
+    for pf in prop_files:
+        props_src = strip_coq_comments(open(os.path.join(COQ, pf)).read())
+        theorem_names += re.findall(r"^\s*Theorem\s+([\w']+)", props_src, re.M)
+        n_pa += len(re.findall(r"^\s*Print Assumptions", props_src, re.M))
     n_theorems = len(theorem_names)
-    n_pa = len(re.findall(r"^\s*Print Assumptions", strip_coq_comments(props_src), re.M))
     if not proof_ok:
         err = first_error(out)
         if "file" in err:
             err["theorem"] = theorem_at(err["file"], err["line"])
         broken.append(dict({"kind": "broken-theorem"}, **err))
     else:
-        rc2, out2 = sh(["coqc", "-Q", ".", "SDS", "Props/%s.v" % prop], cwd=COQ, timeout=600)
-        if rc2 != 0:
-            proof_ok = False
-            broken.append(dict({"kind": "broken-theorem"}, **first_error(out2)))
-        closed, axioms = parse_assumptions(out2)
         allowed = set(cfg.get("allowed_axioms", []))
+        for pf in prop_files:
+            rc2, out2 = sh(["coqc", "-Q", ".", "SDS", pf], cwd=COQ, timeout=900)
+            if rc2 != 0:
+                proof_ok = False
+                broken.append(dict({"kind": "broken-theorem"}, **first_error(out2)))
+            c1, a1 = parse_assumptions(out2)
+            closed += c1
+            axioms = sorted(set(axioms) | set(a1))
         extra = [a for a in axioms if a not in allowed]
         if extra:
             proof_ok = False
@@ -283,7 +290,7 @@ def main():
         broken.append({"kind": "broken-theorem", "error": "escape hatches in sources: " + "; ".join(bad[:10])})
     coqchk_note = None
     if tier == "thorough" and proof_ok and cfg.get("coqchk", True):
-        rcc, outc = sh("coqchk -silent -o -Q . SDS SDS.Props.%s" % prop, cwd=COQ, timeout=3000)
+        rcc, outc = sh("coqchk -silent -o -Q . SDS " + " ".join("SDS." + pf[:-2].replace("/", ".") for pf in prop_files), cwd=COQ, timeout=3000)
         coqchk_note = re.sub(r"\s+", " ", outc[-800:])
         if rcc != 0:
             proof_ok = False
